@@ -27,6 +27,7 @@ U = 'pybufrkit/utils.py'
 E = 'pybufrkit/encoder.py'
 M = 'pybufrkit/mdquery.py'
 B = 'pybufrkit/bufr.py'
+Q = 'pybufrkit/dataquery.py'
 
 MUTS = [
     # ---- stage A: constants ------------------------------------------------------------------
@@ -84,36 +85,78 @@ MUTS = [
     ('C14', 'preserve', 'C18', S, "            if c == '}':\n                state = STATE_IDLE\n", "            if c == '}':\n                state = ''\n"),
     ('C15', 'preserve', 'C18', S, "        elif c == '\\n' and state == STATE_COMMENT:\n            state = STATE_IDLE\n            keep.append(c)\n\n        else:\n            keep.append(c)\n",
      "        else:\n            if c == '\\n' and state == STATE_COMMENT:\n                state = STATE_IDLE\n            keep.append(c)\n"),
-    # ---- w5-smallsrc, stage D: small self-contained functions ------------------------------------
+    # ---- w5-smallsrc, stages SD / SE / SF: small self-contained functions ------------------------------------
     # encoder.py nbits_for_uint
-    ('D1', 'change', 'C02', E, "binx = bin(x)[2:]", "binx = bin(x)[1:]"),
-    ('D2', 'change', 'C02', E, "    if binx.count('1') == len(binx):\n        nbits += 1", "    if binx.count('1') == len(binx) + 1:\n        nbits += 1"),
-    ('D3', 'change', 'C05', E, "    if binx.count('1') == len(binx):\n        nbits += 1", "    if binx.count('1') == len(binx):\n        nbits += 2"),
-    ('D4', 'change', 'C02', E, "    if binx.count('1') == len(binx):\n        nbits += 1", "    if binx.count('0') == len(binx):\n        nbits += 1"),
-    ('D5', 'unsupported', 'C02', E, "binx = bin(x)[2:]", "binx = '{:b}'.format(x)"),
-    ('D6', 'preserve', 'C02', E, "    nbits = len(binx)\n", "    nbits = 0\n    nbits += len(binx)\n"),
-    ('D7', 'preserve', 'C02', E, "    if binx.count('1') == len(binx):\n        nbits += 1", "    if binx.count('0') == 0:\n        nbits += 1"),
+    ('SD1', 'change', 'C02', E, "binx = bin(x)[2:]", "binx = bin(x)[1:]"),
+    ('SD2', 'change', 'C02', E, "    if binx.count('1') == len(binx):\n        nbits += 1", "    if binx.count('1') == len(binx) + 1:\n        nbits += 1"),
+    ('SD3', 'change', 'C05', E, "    if binx.count('1') == len(binx):\n        nbits += 1", "    if binx.count('1') == len(binx):\n        nbits += 2"),
+    ('SD4', 'change', 'C02', E, "    if binx.count('1') == len(binx):\n        nbits += 1", "    if binx.count('0') == len(binx):\n        nbits += 1"),
+    ('SD5', 'unsupported', 'C02', E, "binx = bin(x)[2:]", "binx = '{:b}'.format(x)"),
+    ('SD6', 'preserve', 'C02', E, "    nbits = len(binx)\n", "    nbits = 0\n    nbits += len(binx)\n"),
+    ('SD7', 'preserve', 'C02', E, "    if binx.count('1') == len(binx):\n        nbits += 1", "    if binx.count('0') == 0:\n        nbits += 1"),
     # mdquery.py MetadataExprParser.parse
-    ('E1', 'change', 'C17', M, "metadata_expr[1:].split('.')", "metadata_expr.split('.')"),
-    ('E2', 'change', 'C17', M, "metadata_expr = metadata_expr.strip()", "metadata_expr = metadata_expr.lstrip()"),
-    ('E3', 'change', 'C17', M, "            section_index = None\n", "            section_index = 0\n"),
-    ('E4', 'change', 'C17', M, "            except ValueError:\n", "            except IndexError:\n"),
-    ('E5', 'change', 'C17', M, "            metadata_name = metadata_expr[1:]\n", "            metadata_name = metadata_expr[2:]\n"),
-    ('E6', 'unsupported', 'C17', M, "section_index = int(section_index)", "section_index = int(section_index, 10)"),
-    ('E7', 'preserve', 'C17', M, "            section_index = None\n            metadata_name = metadata_expr[1:]\n",
+    ('SE1', 'change', 'C17', M, "metadata_expr[1:].split('.')", "metadata_expr.split('.')"),
+    ('SE2', 'change', 'C17', M, "metadata_expr = metadata_expr.strip()", "metadata_expr = metadata_expr.lstrip()"),
+    ('SE3', 'change', 'C17', M, "            section_index = None\n", "            section_index = 0\n"),
+    ('SE4', 'change', 'C17', M, "            except ValueError:\n", "            except IndexError:\n"),
+    ('SE5', 'change', 'C17', M, "            metadata_name = metadata_expr[1:]\n", "            metadata_name = metadata_expr[2:]\n"),
+    ('SE6', 'unsupported', 'C17', M, "section_index = int(section_index)", "section_index = int(section_index, 10)"),
+    ('SE7', 'preserve', 'C17', M, "            section_index = None\n            metadata_name = metadata_expr[1:]\n",
      "            metadata_name = metadata_expr[1:]\n            section_index = None\n"),
-    ('E8', 'preserve', 'C17', M, "if '.' in metadata_expr:", "if metadata_expr.count('.') > 0:"),
+    ('SE8', 'preserve', 'C17', M, "if '.' in metadata_expr:", "if metadata_expr.count('.') > 0:"),
     # bufr.py BufrMessage.subset (fragments subset_checks, subset_select)
-    ('F1', 'change', 'C10', B, "if max(subset_indices) >= self.n_subsets.value:", "if max(subset_indices) > self.n_subsets.value:"),
-    ('F2', 'change', 'C10', B, "if min(subset_indices) < 0:", "if min(subset_indices) < -1:"),
-    ('F3', 'change', 'C10', B, "n_subsets = len(set(subset_indices))", "n_subsets = len(subset_indices)"),
-    ('F4', 'change', 'C10', B, "                         if i in subset_indices]", "                         if i not in subset_indices]"),
-    ('F5', 'preserve', 'C10', B, "if min(subset_indices) < 0:", "if 0 > min(subset_indices):"),
-    ('F6', 'unsupported', 'C10', B, "n_subsets = len(set(subset_indices))", "n_subsets = len(frozenset(subset_indices))"),
+    ('SF1', 'change', 'C10', B, "if max(subset_indices) >= self.n_subsets.value:", "if max(subset_indices) > self.n_subsets.value:"),
+    ('SF2', 'change', 'C10', B, "if min(subset_indices) < 0:", "if min(subset_indices) < -1:"),
+    ('SF3', 'change', 'C10', B, "n_subsets = len(set(subset_indices))", "n_subsets = len(subset_indices)"),
+    ('SF4', 'change', 'C10', B, "                         if i in subset_indices]", "                         if i not in subset_indices]"),
+    ('SF5', 'preserve', 'C10', B, "if min(subset_indices) < 0:", "if 0 > min(subset_indices):"),
+    ('SF6', 'unsupported', 'C10', B, "n_subsets = len(set(subset_indices))", "n_subsets = len(frozenset(subset_indices))"),
+    # ---- stage D: the whole NodePathParser of dataquery.py (stateful class, C15_src_parse_eq) ----------------
+    ('D1', 'change', 'C15', Q, "                if self.current_state == STATE_START_PARSING:\n                    self.current_state = STATE_START_SUBSET\n",
+     "                if True:\n                    self.current_state = STATE_START_SUBSET\n"),
+    ('D2', 'change', 'C15', Q, "            if self.current_slice_elements[0] >= 0:", "            if self.current_slice_elements[0] > 0:"),
+    ('D3', 'change', 'C15', Q, "self.current_slice_elements[0] + 1 if self.current_slice_elements[0] != -1 else None,",
+     "self.current_slice_elements[0] + 1,"),
+    ('D4', 'change', 'C15', Q, "            ret = None if self.current_token == '' else int(self.current_token)\n            self.current_token = ''\n",
+     "            ret = None if self.current_token == '' else int(self.current_token)\n"),
+    ('D5', 'change', 'C15', Q, "    def handle_separator(self, c):\n        if self.current_state == STATE_START_PARSING",
+     "    def handle_separator(self, c):\n        self.current_separator = c\n        if self.current_state == STATE_START_PARSING"),
+    ('D6', 'change', 'C15', Q, "            if c in string.whitespace:\n", "            if c in string.whitespace and self.current_state != STATE_START_ID:\n"),
+    ('D7', 'change', 'C15', Q, "            self.current_state = STATE_START_SLICE_0\n            self.current_id = self.convert_id()\n",
+     "            self.current_state = STATE_START_SLICE_0\n"),
+    ('D8', 'change', 'C15', Q, "        elif len(self.current_slice_elements) <= 3:  # 2 or 3", "        elif len(self.current_slice_elements) <= 4:  # 2 or 3"),
+    ('D9', 'change', 'C15', Q, "            if self.current_state == STATE_START_SUBSET_SLICE_0:\n                self.current_state = STATE_START_SUBSET_SLICE_X\n",
+     "            if self.current_state == STATE_START_SUBSET_SLICE_0:\n                self.current_state = STATE_START_SLICE_X\n"),
+    ('D10', 'change', 'C15', Q, "        self.current_separator = None\n        self.current_slice_elements = []\n", "        self.current_separator = None\n"),
+    ('D11', 'change', 'C15', Q, "        if (c == ']' and self.current_token == '' and\n            self.current_state in (STATE_START_SLICE_0,\n                                       STATE_START_SUBSET_SLICE_0)):\n            raise unexpected_char_error(c, self.pos)\n\n",
+     ""),
+    ('D12', 'change', 'C15', Q, "            if self.bare_id_matches_all:\n", "            if True:\n"),
+    ('D13', 'change', 'C15', Q, "'@/>0123456789ABCDEFGHIJKLMNOPQRSTUVWXYZ'", "'@/>0123456789ABCDEFGHIJKLMNOPQRSTUVWXY'"),
+    ('D14', 'change', 'C15', Q, "        if self.current_token == '':\n            raise PathExprParsingError('empty ID at position {}'.format(self.pos))\n\n", ""),
+    ('D15', 'change', 'C15', Q, "        elif self.current_state == STATE_STOP_SLICE:\n            self.add_new_path_component()\n\n        elif self.current_token != '':",
+     "        elif self.current_state in (STATE_STOP_SLICE, STATE_STOP_SUBSET_SLICE):\n            self.add_new_path_component()\n\n        elif self.current_token != '':"),
+    ('D16', 'change', 'C15', Q, "        except ValueError:\n            raise PathExprParsingError('invalid slice syntax", "        except TypeError:\n            raise PathExprParsingError('invalid slice syntax"),
+    ('D17', 'unsupported', 'C15', Q, "                    self.current_token += c\n\n                elif self.current_state == STATE_START_PARSING:",
+     "                    self.current_token = ''.join([self.current_token, c])\n\n                elif self.current_state == STATE_START_PARSING:"),
+    ('D18', 'unsupported', 'C15', Q, "        self.node_path.add_component(\n            PathComponent(self.current_separator, self.current_id, slc_obj)\n        )",
+     "        self.node_path.components.append(\n            PathComponent(self.current_separator, self.current_id, slc_obj)\n        )\n        log.debug(slc_obj)"),
+    ('D19', 'preserve', 'C15', Q, '@renameparse c ch', ''),
+    ('D20', 'preserve', 'C15', Q, "        self.current_id = None\n        self.current_separator = None\n", "        self.current_separator = None\n        self.current_id = None\n"),
+    ('D21', 'preserve', 'C15', Q, "            elif c in (':', ']'):", "            elif c == ':' or c == ']':"),
+    ('D22', 'preserve', 'C15', Q, "        if self.current_state == STATE_START_PARSING and c != PATH_SEPARATOR_ATTRIB:",
+     "        if c != PATH_SEPARATOR_ATTRIB and self.current_state == STATE_START_PARSING:"),
+    ('D23', 'preserve', 'C15', Q, "        token, self.current_token = self.current_token, ''\n", "        token = self.current_token\n        self.current_token = ''\n"),
+    ('D24', 'preserve', 'C15', Q, "        if len(self.current_slice_elements) == 0:", "        if self.current_slice_elements == []:"),
 ]
 
 
 def apply(text, a, b):
+    if a.startswith('@renameparse '):
+        _, old, new = a.split()
+        i = text.index('    def parse(self, path_expr):')
+        j = text.index('    def handle_left_bracket(self):')
+        body = re.sub(r'(?<![\w.\'])%s(?![\w\'])' % old, new, text[i:j])
+        return text[:i] + body + text[j:]
     if a.startswith('@rename '):
         _, old, new = a.split()
         i = text.index('def process_embedded_query_expr')
